@@ -185,6 +185,40 @@ def run_two_ports(job, acc):
             f'(issued by a {issuer}): {e!r}', case))
         return
     want = _two_port_ref((n1, n2))
+    if got == want:
+        # the lists the process returned are its own (it may return the
+        # very same objects again): carrying them out must not change
+        # them
+        try:
+            kw2 = {'processes': {}}
+            spec2 = dict(spec, reuse_update=True)
+            if issuer == 'step':
+                op = probes.ProbeStep(spec2)
+                kw2['steps'], kw2['flow'] = {'op': op}, {'op': []}
+            else:
+                op = probes.Probe(dict(spec2, ts=1))
+                kw2['processes']['op'] = op
+            eng = Engine(topology={'op': topo['op']},
+                         emitter={'type': 'null'}, display_info=False,
+                         initial_state={'kids': {
+                             'a': {'v': 1}, 'b': {'v': 2}, 'c': {'v': 3}}},
+                         **kw2)
+            if issuer == 'process':
+                eng.update(1)
+            kept = getattr(op, '_reused', None)
+        except Exception as e:  # noqa
+            acc.violate(fw.violation(
+                'C09.crash', f'two-ports-reuse:{type(e).__name__}',
+                f'{case}: {e!r}', case))
+            return
+        fresh = {'k1': TWO_PORT_MENU[n1], 'k2': TWO_PORT_MENU[n2]}
+        if kept != fresh:
+            acc.violate(fw.violation(
+                'C09.input', 'returned-update-modified',
+                f'one process returns {fresh} through two ports wired to '
+                f'one store (issued by a {issuer}); after the update was '
+                f'carried out the object it returned reads {kept}', case))
+        return
     if got != want:
         acc.violate(fw.violation(
             'C09.tree', 'two-ports-one-store',
@@ -479,7 +513,7 @@ RULE += (
     ' Rejection also for ONE _add list that names the same new key twice. Step-issued worlds hold a census step that depends on the operator step: it must be shown the children as they are after the operation, in the same phase.')
 
 RULE += (
-    ' Two-ports family: ONE process (or step) whose two ports are wired to the same store returns through each port one of {_delete a, _delete b, _add x, _add y, _move c, _move a, a value update} - every ordered pair: both are carried out.')
+    ' Two-ports family: ONE process (or step) whose two ports are wired to the same store returns through each port one of {_delete a, _delete b, _add x, _add y, _move c, _move a, a value update} - every ordered pair: both are carried out, and the update object the process returned is left as it was.')
 
 RULE += (
     ' Nested-add family: _add of a child whose state names 0-2 children of a glob store nested in the sub-schema, giving one of their two variables: the other holds its declared default.')
